@@ -384,11 +384,19 @@ def body_rw(ctx, cfg):
         setattr(mgr, a, [1])
     mgr._design = SC.NS(find_design=ctor)
     out = {}
+    # the two end fields of the spacing range as the stub generator builds them (independent of the search): densest / sparsest
+    dense_n = (int(cfg['lot'] // cfg['smin']) + 1) ** 2
+    sparse_n = (int(cfg['lot'] // cfg['smax']) + 1) ** 2
+    not_cont = ~cont if isinstance(cont, SymBool) else (not cont)
     try:
         mgr.find_design()
     except ValueError as ex:
         out['raised'] = 'ValueError'
         out['raised_msg'] = str(ex)[:60]
+        if str(ex) == 'Search failed.':
+            # legitimate only without the continue flag, and only if every candidate the search evaluated fails at maximum height
+            fails = [ctx.excess(i, hk) > 0 for (i, hk) in sorted(set(ctx.evals)) if hk == 'hi']
+            out['policy'] = conj([not_cont] + fails)
         return out
     except Exception as ex:  # noqa: BLE001
         return exc_outcome(out, ex)
@@ -396,6 +404,15 @@ def body_rw(ctx, cfg):
     i, h, hk = SC.final_state(ctx, search)
     unmet = any(('configuration selected' in m) for m in ctx.msgs)
     out.update(unmet=unmet, sel=i, hk=hk)
+    msgs = ' '.join(ctx.msgs)
+    pol = []
+    if 'Largest available configuration selected' in msgs:
+        # the densest field (minimum spacing), with the continue flag, and only if no evaluated candidate meets the limits
+        pol += [len(ctx.field_list[i]) == dense_n, cont if isinstance(cont, SymBool) else bool(cont)]
+        pol += [ctx.excess(j, hk2) > 0 for (j, hk2) in sorted(set(ctx.evals)) if hk2 == 'hi']
+    if not unmet:
+        pol.append(not any('optimal design requires more' in m for m in ctx.msgs))
+    out['policy'] = conj(pol) if pol else True
     bound, is_root = SC.excess_bound_at(ctx, i, hk)
     out['c01'] = True if unmet else (bound <= SC.TOL)
     out['c02_height'] = (h >= ctx.min_h) & (h <= ctx.max_h)
